@@ -10,7 +10,9 @@ fn usage() -> ! {
 }
 
 fn profile_name() -> &'static str {
-    if cfg!(debug_assertions) {
+    if option_env!("SM9VERIF_VARIANT") == Some("native") {
+        "native"
+    } else if cfg!(debug_assertions) {
         "dbg"
     } else {
         "release"
@@ -215,18 +217,39 @@ fn run(id: &str, tier: Tier, child: bool) -> i32 {
     let t_total = std::time::Instant::now();
     let out = runner::run_prop(&def, tier, seed, cases_override);
 
-    // second configuration (debug assertions + overflow checks): same check, same seed, dbg binary
+    // further build configurations of the same library sources, same check, same seed:
+    //  - dbg (debug assertions + overflow checks) for the properties that ask for it,
+    //  - native (release, `-C target-cpu=native`): code selected by `cfg(target_feature = ..)` is only compiled there.
     let mut extra = json!({"profile": profile_name()});
     let mut dbg_violation: Option<String> = None;
-    if def.also_dbg && !child && out.found.is_none() {
-        let exe = std::env::current_exe().unwrap();
-        let dbg = exe.parent().unwrap().parent().unwrap().join("dbg").join("sm9check");
-        if !dbg.exists() {
-            println!("INCONCLUSIVE: dbg-profile binary {} missing", dbg.display());
+    let exe = std::env::current_exe().unwrap();
+    let hdir = exe.parent().unwrap().parent().unwrap().parent().unwrap().to_path_buf();
+    let mut variants: Vec<(&str, std::path::PathBuf, Option<u32>)> = vec![];
+    if def.also_dbg {
+        variants.push(("dbg_profile", hdir.join("target").join("dbg").join("sm9check"), cases_override));
+    }
+    let native = hdir.join("target-native").join("release").join("sm9check");
+    if std::env::var("VERIF_NATIVE").map(|v| v != "0").unwrap_or(true) && native.exists() && def.id != "C18" {
+        let total = cases_override.unwrap_or(match tier {
+            Tier::Quick => def.quick_cases,
+            Tier::Thorough => def.thorough_cases,
+        });
+        variants.push(("native_profile", native, Some((total / 4).max(64))));
+    }
+    for (label, bin, cases) in variants {
+        if child || out.found.is_some() || dbg_violation.is_some() {
+            break;
+        }
+        if !bin.exists() {
+            println!("INCONCLUSIVE: {} binary {} missing", label, bin.display());
             return 2;
         }
-        let o = std::process::Command::new(&dbg).args(["run", def.id, tier.name(), "--child"]).env("VERIF_SEED", seed.to_string()).output();
-        match o {
+        let mut cmd = std::process::Command::new(&bin);
+        cmd.args(["run", def.id, tier.name(), "--child"]).env("VERIF_SEED", seed.to_string());
+        if let Some(n) = cases {
+            cmd.env("VERIF_CASES", n.to_string());
+        }
+        match cmd.output() {
             Ok(o) => {
                 let txt = String::from_utf8_lossy(&o.stdout).to_string();
                 let mut summary = None;
@@ -235,21 +258,21 @@ fn run(id: &str, tier: Tier, child: bool) -> i32 {
                         summary = serde_json::from_str::<Value>(rest).ok();
                     }
                     if l.starts_with("VIOLATION ") {
-                        dbg_violation = Some(l.to_string());
+                        dbg_violation = Some(format!("(found by the {} run)\n{}", label, txt.lines().filter(|l| !l.starts_with("SUMMARY ")).collect::<Vec<_>>().join("\n")));
                     }
                 }
                 match (o.status.code(), summary) {
                     (Some(0), Some(sv)) | (Some(1), Some(sv)) => {
-                        extra["dbg_profile"] = sv;
+                        extra[label] = sv;
                     }
                     _ => {
-                        println!("INCONCLUSIVE: dbg-profile child failed (status {:?}):\n{}", o.status.code(), txt);
+                        println!("INCONCLUSIVE: {} child failed (status {:?}):\n{}", label, o.status.code(), txt);
                         return 2;
                     }
                 }
             }
             Err(e) => {
-                println!("INCONCLUSIVE: cannot run dbg child: {}", e);
+                println!("INCONCLUSIVE: cannot run {} child: {}", label, e);
                 return 2;
             }
         }
@@ -258,9 +281,14 @@ fn run(id: &str, tier: Tier, child: bool) -> i32 {
     let c = &out.counters;
     if child {
         let classes: serde_json::Map<String, Value> = c.classes.iter().map(|(k, v)| (k.clone(), json!(v))).collect();
-        let sv = json!({"profile": profile_name(), "evaluations": c.evaluations, "distinct_nontrivial": c.distinct.len(), "classes": classes, "violations": if out.found.is_some() {1} else {0}, "wall_s": out.wall_s});
+        let sv = json!({"profile": profile_name(), "evaluations": c.evaluations, "distinct_nontrivial": c.distinct.len(), "classes": classes, "violations": if out.found.is_some() {1} else {0}, "wall_s": out.wall_s,
+            "target_features": {"bmi2": cfg!(target_feature = "bmi2"), "adx": cfg!(target_feature = "adx"), "avx2": cfg!(target_feature = "avx2"), "avx512f": cfg!(target_feature = "avx512f")}});
         if let Some(f) = &out.found {
             let path = runner::write_replay(&format!("{}-{}", def.id, profile_name()), f);
+            if f.failure.sig.starts_with("harness|") || f.failure.sig.starts_with("oracle|") {
+                println!("INCONCLUSIVE: [{}] {} [{}] (case saved to {})", profile_name(), f.failure.msg, f.failure.sig, path);
+                return 2;
+            }
             println!("[{}] {}: {}", profile_name(), f.failure.sig, f.failure.msg);
             println!("VIOLATION property={} replay={}", def.id, path);
         }
@@ -307,7 +335,6 @@ fn run(id: &str, tier: Tier, child: bool) -> i32 {
         return 1;
     }
     if let Some(l) = dbg_violation {
-        println!("(found by the dbg-profile run)");
         println!("{}", l);
         return 1;
     }
